@@ -96,6 +96,94 @@ def time_cases(chk):
         for rng in ([], [1], [1, 2, 3], "ab", None, {"a": 1}, {"attr": "context.b"}):
             cases.append({"fam": "between", "cond": {"between": [{"attr": "context.a"}, rng]},
                           "env": mk_env(x, ["2024-01-01", "2026-01-01"], False)})
+    cases += between_ref_cases(chk, pts)
+    return cases
+
+
+BETWEEN_REF_RANGES = [           # the range operand; context.lo / context.hi / context.b / context.rng come from the request
+    ("attr,attr", [{"attr": "context.lo"}, {"attr": "context.hi"}]),
+    ("attr,lit", [{"attr": "context.lo"}, "<hi>"]),
+    ("lit,attr", ["<lo>", {"attr": "context.hi"}]),
+    ("attr,missing", [{"attr": "context.lo"}, {"attr": "context.nokey"}]),
+    ("same attr twice", [{"attr": "context.lo"}, {"attr": "context.lo"}]),
+    ("range is an attr -> pair", {"attr": "context.rng"}),
+    ("range is an attr -> pair of attribute references", {"attr": "context.refs"}),
+    ("range is an attr -> [reference, literal]", {"attr": "context.mixed"}),
+]
+
+
+def between_ref_cases(chk, pts):
+    """`between` whose bounds are attribute references INSIDE the range pair (one, both, mixed with literals), or whose whole
+    range is a reference resolving to a pair (of values, or of {"attr": ...} objects carried by the request): the model
+    resolves the range and then each bound (Cond.v: lo' <- resolve lo env)"""
+    cases = []
+    bounds = [("2024-01-01T00:00:00Z", "2026-01-01T00:00:00Z"), ("2025-01-01T00:00:00Z", "2025-01-01T00:00:00Z"),
+              (1735689600, "2025-06-01"), (gen.DATES[0], gen.DATES[2]), (gen.DATES[0], gen.DATES[1]), (gen.DATES[1], 1767225600),
+              ("2026-01-01T00:00:00Z", "2024-01-01T00:00:00Z"), ("bad", "2026-01-01T00:00:00Z"), ("2024-01-01", None),
+              ({"attr": "context.hi"}, "2026-01-01T00:00:00Z"), (1e30, gen.DATES[0])]
+    k = 0
+    for x in pts:
+        for lo, hi in bounds:
+            for name, rng in BETWEEN_REF_RANGES:
+                k += 1
+                if chk.tier == "quick" and k % 3 != chk.seed % 3 and not (name == "attr,attr" and k % 2):
+                    continue
+                r = gen.fresh(rng)
+                if isinstance(r, list):
+                    r = [lo if t == "<lo>" else hi if t == "<hi>" else t for t in r]
+                    if any(isinstance(t, dict) and "attr" not in t for t in r):
+                        continue
+                extra = {"lo": gen.fresh(lo), "hi": gen.fresh(hi), "rng": [gen.fresh(lo), gen.fresh(hi)],
+                         "refs": [{"attr": "context.lo"}, {"attr": "context.hi"}], "mixed": [{"attr": "context.lo"}, gen.fresh(hi)]}
+                for strict in (False, True):
+                    cases.append({"fam": "between-refs", "cond": {"between": [{"attr": "context.a"}, r]},
+                                  "env": mk_env(x, None, strict, extra)})
+    return cases
+
+
+NESTED_MEMBERS = [[], ["legacy"], {"name": "ops"}, [[1]], {"k": [1, {"z": None}]}, [1.0], {}, ["doc", "read"], [True], {"name": "ops", "lvl": 2}]
+
+
+def nested_collections():
+    """collections holding a nested list / object as first, last, middle, only member, two nested members, plus flat ones"""
+    out = [[], ["ops"], ["ops", "a"], [1], [None]]
+    for n in NESTED_MEMBERS:
+        out += [[n], [n, "ops"], ["ops", n], ["a", n, "ops"], [n, n]]
+    out += [[[], {}], [{}, []], [[1], [1.0]], [{"name": "ops"}, ["legacy"], "ops"], [[1], 1], [["legacy"], ["doc", "read"]]]
+    return [gen.fresh(x) for x in out]
+
+
+def nested_member_cases(chk):
+    """hasAll / hasAny / in / contains over collections with nested list / object members on either side (values of the
+    request and literals of the policy): a nested member is a member like any other, compared structurally
+    (py_in_list uses py_eq: [1] is in [[1.0]], {"name": "ops"} is in a list holding an equal object)"""
+    cols = nested_collections()
+    quick = chk.tier == "quick"
+    cases = []
+    k = 0
+    for op in ("hasAll", "hasAny"):
+        for i, a in enumerate(cols):
+            for j, b in enumerate(cols):
+                k += 1
+                if quick and (i + 2 * j + chk.seed) % 6 and not (i == j or (len(a) == 1 and len(b) == 1)):
+                    continue
+                pl = "aa" if k % 4 else ("ll", "al", "la")[k // 4 % 3]
+                ta = {"attr": "context.a"} if pl[0] == "a" else gen.fresh(a)
+                tb = {"attr": "context.b"} if pl[1] == "a" else gen.fresh(b)
+                cases.append({"fam": "nested-members", "cond": {op: [ta, tb]}, "env": mk_env(a, b, k % 7 == 0)})
+    needles = NESTED_MEMBERS + ["ops", 1, None, [1], ["LEGACY"], {"name": "OPS"}, [[1.0]], {"lvl": 2, "name": "ops"}]
+    for n in needles:
+        for c in cols:
+            k += 1
+            if quick and (k + chk.seed) % 2 and len(c) != 1:
+                continue
+            pl = "aa" if k % 3 else ("ll", "al", "la")[k // 3 % 3]
+            tn = {"attr": "context.a"} if pl[0] == "a" else gen.fresh(n)
+            tc = {"attr": "context.b"} if pl[1] == "a" else gen.fresh(c)
+            if isinstance(n, dict) and pl[0] == "l" and "attr" in n:
+                continue
+            cases.append({"fam": "nested-members", "cond": {"in": [tn, tc]}, "env": mk_env(n, c, False)})
+            cases.append({"fam": "nested-members", "cond": {"contains": [tc, tn]}, "env": mk_env(n, c, False)})
     return cases
 
 
@@ -304,11 +392,52 @@ def run(chk):
         "datetime objects reached by an attribute path step are outside the model",
     ]
     cases = corpus_cases()
-    cases += binop_cases(chk) + time_cases(chk) + logic_cases(chk) + resolve_cases(chk) + rule_cases(chk)
+    cases += binop_cases(chk) + time_cases(chk) + nested_member_cases(chk) + logic_cases(chk) + resolve_cases(chk) + rule_cases(chk)
     cases += relmix_cases(chk)
     check_cases(chk, cases)
     engine_time_mode(chk)
     chk.exhaustive = chk.tier == "thorough"
+
+
+def between_ref_engine_cases():
+    """`between` whose bounds are attribute references inside the range pair (validity window carried by the resource),
+    through the engine: single policy (compiled path) and set, lax and strict, the request carrying aware / naive
+    datetimes, ISO text, epoch numbers or nothing"""
+    import datetime as dt
+    import polgen
+    utc = dt.timezone.utc
+    windows = [{"start": dt.datetime(2024, 1, 1, tzinfo=utc), "end": dt.datetime(2026, 1, 1, tzinfo=utc)},
+               {"start": "2024-01-01T00:00:00Z", "end": "2026-01-01T00:00:00Z"},
+               {"start": 1704067200, "end": dt.datetime(2026, 1, 1, tzinfo=utc)},
+               {"start": dt.datetime(2024, 1, 1), "end": dt.datetime(2026, 1, 1, tzinfo=utc)},
+               {"start": dt.datetime(2025, 1, 1, tzinfo=utc), "end": dt.datetime(2025, 1, 1, tzinfo=utc)},
+               {"start": dt.datetime(2026, 1, 1, tzinfo=utc), "end": dt.datetime(2027, 1, 1, tzinfo=utc)},
+               {"start": dt.datetime(2024, 1, 1, tzinfo=utc)},
+               {"window": [dt.datetime(2024, 1, 1, tzinfo=utc), dt.datetime(2026, 1, 1, tzinfo=utc)]}]
+    ranges = [[{"attr": "resource.attrs.start"}, {"attr": "resource.attrs.end"}],
+              [{"attr": "resource.attrs.start"}, "2026-01-01T00:00:00Z"],
+              ["2024-01-01T00:00:00Z", {"attr": "resource.attrs.end"}],
+              [{"attr": "resource.attrs.start"}, enggen_dt_literal()],
+              {"attr": "resource.attrs.window"}]
+    out = []
+    for ri, rng in enumerate(ranges):
+        pol = {"id": "win%d" % ri, "algorithm": "deny-overrides", "rules": [
+            {"id": "window", "effect": "permit", "actions": ["read"], "resource": {"type": "doc"},
+             "condition": {"between": [{"attr": "context.now"}, rng]}}]}
+        for wi, w in enumerate(windows):
+            for now in (dt.datetime(2025, 1, 1, tzinfo=utc), "2025-01-01T00:00:00Z", 1735689600):
+                req = {**polgen.BASE_REQ, "resource": {**polgen.BASE_REQ["resource"], "attrs": dict(w)}, "context": {"now": now}}
+                for strict in (False, True):
+                    shape = ("single", "set")[(ri + wi + strict) % 2] if isinstance(now, (str, int)) else None
+                    for sh in ([shape] if shape else ["single", "set"]):
+                        p2 = pol if sh == "single" else {"algorithm": "deny-overrides", "policies": [pol]}
+                        out.append({"fam": "between_refs", "policy": p2, "req": req, "strict": strict})
+    return out
+
+
+def enggen_dt_literal():
+    import enggen
+    return enggen.DT_LITERAL
 
 
 def engine_time_mode(chk, given=None):
@@ -318,7 +447,7 @@ def engine_time_mode(chk, given=None):
     clause)."""
     import enggen
 
-    cases = [dict(c, warm=False) for c in (given if given is not None else enggen.time_mode_cases())]
+    cases = [dict(c, warm=False) for c in (given if given is not None else enggen.time_mode_cases() + between_ref_engine_cases())]
     impls = enggen.run_impl(cases)
     models = enggen.run_model(cases, impls, "engine.eval")
     for c, i, m in zip(cases, impls, models):
